@@ -87,7 +87,7 @@ func withSpare(env []byte, v primitive.ProtocolVersion, n int) []byte {
 	if n <= 0 {
 		return env
 	}
-	hl := v.FrameHeaderLengthInBytes()
+	hl := specHeaderLen(v)
 	out := append(append([]byte(nil), env...), spareBytes(n)...)
 	bl := len(out) - hl
 	out[hl-4], out[hl-3], out[hl-2], out[hl-1] = byte(bl>>24), byte(bl>>16), byte(bl>>8), byte(bl)
@@ -216,7 +216,7 @@ func echo(req *frame.Frame) *frame.Frame {
 		msg = &message.Supported{Options: map[string][]string{"COMPRESSION": {"lz4", "snappy"}}}
 	case *message.Query:
 		cell := []byte(m.Query)
-		if v.SupportsModernFramingLayout() && len(cell) > 100000 {
+		if specModern(v) && len(cell) > 100000 {
 			// this library cannot SEND an envelope that does not fit one segment (see the oversize probe): answer with a prefix
 			cell = cell[:1000]
 		}
@@ -245,7 +245,7 @@ func echo(req *frame.Frame) *frame.Frame {
 		msg = &message.Ready{}
 	case *message.AuthResponse:
 		tok := m.Token
-		if v.SupportsModernFramingLayout() && len(tok) > 100000 {
+		if specModern(v) && len(tok) > 100000 {
 			tok = tok[:1000]
 		}
 		msg = &message.AuthChallenge{Token: tok}
@@ -334,7 +334,7 @@ func describe0(f *frame.Frame, fl []byte, kind string, seed int) (envDesc, []byt
 	if err != nil {
 		return envDesc{}, nil, err
 	}
-	hl := f.Header.Version.FrameHeaderLengthInBytes()
+	hl := specHeaderLen(f.Header.Version)
 	body := env[hl:]
 	d := envDesc{V: int(f.Header.Version), Resp: f.Header.IsResponse, Flags: int(flags), Sid: int(f.Header.StreamId), Op: int(f.Header.OpCode), Len: len(env)}
 	// the filler may appear truncated (a [string] holds at most 65535 bytes; the echo of a large v5 request is a prefix)
